@@ -49,4 +49,15 @@ CLAIMS['C11'] = {
     'note': _NOTE,
 }
 
+CLAIMS['C13'] = {
+    'text': 'Pipe: add/del subscriber pairing on every exit of transfer (normal and each '
+            'signal class at each suspension site), re-plan pairing (table mutation -> '
+            'rescale, scale store -> wake all in one atomic block, waits inside the '
+            'congestion subscription), and the fluid-model formulas (scale, planned delay, '
+            'accounting, window order, unbounded delay) compared as rational-function normal '
+            'forms with roles discovered from the code. The numeric claim that completion '
+            'times equal the integral up to rounding is not decided.',
+    'note': _NOTE,
+}
+
 NOT_APPLICABLE = {}
